@@ -428,6 +428,94 @@ theorem tm_fails_with_entry (c : Cfg) (good : List (Bytes × Obj × Option Obj))
   exact FailsWith.first (FailsWith.many good _ (fun e => (⟨e.1, some e.2.1, e.2.2⟩ : MdEntry))
     (fun e he => reads_tableEntry c e (hg e he)) k bad s hbad)
 
+/-- a row of the column-metadata name list corrupted in a way `readNameRow` reports with `s`, after
+    intact table-level entries, counts and any number of intact rows: `sbdf_tm_read` fails with `s` -/
+theorem tm_fails_with_namerow (c : Cfg) (table : List (Bytes × Obj × Option Obj)) (ht : ∀ e ∈ table, TableEntryOk c e)
+    (htc : (table.length : Int) ≤ INT_MAX) (ncols : Nat) (hcc : (ncols : Int) * 8 ≤ c.cap ∧ (ncols : Int) ≤ INT_MAX)
+    (good : List NameRow) (hg : ∀ r ∈ good, NameRowOk c r) (k : Nat)
+    (hnc : ((good.length + (k + 1) : Nat) : Int) * 8 ≤ c.cap ∧ ((good.length + (k + 1) : Nat) : Int) ≤ INT_MAX)
+    (bad : Bytes) (s : Status) (hbad : FailsWith (readNameRow c) bad s) :
+    FailsWith (readTM c) (sec 2 ++ le c table.length ++ table.flatMap (fun e => tableEntry c e.1 e.2.1 e.2.2) ++
+      le c ncols ++ le c ((good.length + (k + 1) : Nat) : Int) ++ (good.flatMap (nameRow c) ++ bad)) s := by
+  unfold readTM; simp only [P.bind_def]
+  rw [List.append_assoc, List.append_assoc, List.append_assoc, List.append_assoc]
+  refine FailsWith.after (reads_secExpect 2 (by omega)) ?_
+  have ht32 : isInt32 (table.length : Int) := by unfold INT_MAX at htc; unfold isInt32; omega
+  refine FailsWith.after (reads_int32 c _ ht32) ?_
+  have h0 : ¬ ((table.length : Int) < 0) := by omega
+  simp only [h0, if_false, Int.toNat_natCast]
+  have hentries := Reads.manyMap (p := readTableEntry c) table (fun e => tableEntry c e.1 e.2.1 e.2.2)
+    (fun e => (⟨e.1, some e.2.1, e.2.2⟩ : MdEntry)) (fun e he => reads_tableEntry c e (ht e he))
+  refine FailsWith.after hentries ?_
+  have hc32 : isInt32 (ncols : Int) := by have := hcc.2; unfold INT_MAX at this; unfold isInt32; omega
+  refine FailsWith.after (reads_int32 c _ hc32) ?_
+  have hc0 : ¬ ((ncols : Int) < 0) := by omega
+  simp only [hc0, if_false]
+  refine FailsWith.after_pre (a := ()) (Reads.allocOk c _ (by omega) hcc.1) ?_
+  have hn32 : isInt32 ((good.length + (k + 1) : Nat) : Int) := by
+    have := hnc.2; unfold INT_MAX at this; unfold isInt32; omega
+  refine FailsWith.after (Reads.remap .oom (reads_int32 c _ hn32)) ?_
+  have hn0 : ¬ (((good.length + (k + 1) : Nat) : Int) < 0) := by omega
+  simp only [hn0, if_false, Int.toNat_natCast]
+  refine FailsWith.after_pre (a := ()) (Reads.allocOk c _ (by omega) hnc.1) ?_
+  exact FailsWith.first (FailsWith.many good (nameRow c) id (fun r hr => reads_nameRow c r (hg r hr)) k bad s hbad)
+
+/-- e.g. a negative name length in any row of the name list -/
+theorem namerow_negative_length (c : Cfg) (l : Int) (h32 : isInt32 l) (h : l < 0) :
+    FailsWith (readNameRow c) (le c l) .invalidSize := by
+  unfold readNameRow; simp only [P.bind_def]
+  exact FailsWith.first (negative_string_length c l h32 h).1
+
+/-- the per-column part: a column on which `readColumn` fails with `s` (a value of an unknown type,
+    a truncated value, the same name twice in one column → METADATA_ALREADY_EXISTS), after any
+    number of intact columns: `sbdf_tm_read` fails with `s` -/
+theorem columns_then_failure (c : Cfg) (rows : List NameRow) (pc : List (List (Option Obj))) (cols : List Md)
+    (h : All2 (ColOk c rows) pc cols) (k : Nat) (bad : Bytes) (s : Status)
+    (hbad : FailsWith (readColumn c rows Md.empty) bad s) :
+    FailsWith (readMany (pc.length + (k + 1)) (readColumn c rows Md.empty))
+      (pc.flatMap (fun col => col.flatMap (optObj c)) ++ bad) s := by
+  induction h with
+  | nil =>
+    simp only [List.length_nil, Nat.zero_add, List.flatMap_nil, List.nil_append, readMany, P.bind_def]
+    exact FailsWith.first hbad
+  | @cons x m xs ms hx _ ih =>
+    have e : (x :: xs).length + (k + 1) = (xs.length + (k + 1)) + 1 := by simp; omega
+    rw [e]
+    simp only [readMany, P.bind_def, List.flatMap_cons, List.append_assoc]
+    refine FailsWith.after (reads_column c rows x Md.empty m hx.1 hx.2.1 hx.2.2) ?_
+    exact FailsWith.first ih
+
+theorem tm_fails_with_column (c : Cfg) (p : PhysTM) (cols : List Md) (hp : p.Ok c cols) (k : Nat)
+    (hcc : ((p.cols.length + (k + 1) : Nat) : Int) * 8 ≤ c.cap ∧ ((p.cols.length + (k + 1) : Nat) : Int) ≤ INT_MAX)
+    (bad : Bytes) (s : Status) (hbad : FailsWith (readColumn c p.names Md.empty) bad s) :
+    FailsWith (readTM c) (sec 2 ++ le c p.table.length ++ p.table.flatMap (fun e => tableEntry c e.1 e.2.1 e.2.2) ++
+      le c ((p.cols.length + (k + 1) : Nat) : Int) ++ le c p.names.length ++ p.names.flatMap (nameRow c) ++
+      (p.cols.flatMap (fun col => col.flatMap (optObj c)) ++ bad)) s := by
+  unfold readTM; simp only [P.bind_def]
+  rw [List.append_assoc, List.append_assoc, List.append_assoc, List.append_assoc, List.append_assoc]
+  refine FailsWith.after (reads_secExpect 2 (by omega)) ?_
+  have ht32 : isInt32 (p.table.length : Int) := by have := hp.tcnt; unfold INT_MAX at this; unfold isInt32; omega
+  refine FailsWith.after (reads_int32 c _ ht32) ?_
+  have h0 : ¬ ((p.table.length : Int) < 0) := by omega
+  simp only [h0, if_false, Int.toNat_natCast]
+  have hentries := Reads.manyMap (p := readTableEntry c) p.table (fun e => tableEntry c e.1 e.2.1 e.2.2)
+    (fun e => (⟨e.1, some e.2.1, e.2.2⟩ : MdEntry)) (fun e he => reads_tableEntry c e (hp.table e he))
+  refine FailsWith.after hentries ?_
+  have hc32 : isInt32 ((p.cols.length + (k + 1) : Nat) : Int) := by
+    have := hcc.2; unfold INT_MAX at this; unfold isInt32; omega
+  refine FailsWith.after (reads_int32 c _ hc32) ?_
+  have hc0 : ¬ (((p.cols.length + (k + 1) : Nat) : Int) < 0) := by omega
+  simp only [hc0, if_false]
+  refine FailsWith.after_pre (a := ()) (Reads.allocOk c _ (by omega) hcc.1) ?_
+  have hn32 : isInt32 (p.names.length : Int) := by have := hp.ncnt.2; unfold INT_MAX at this; unfold isInt32; omega
+  refine FailsWith.after (Reads.remap .oom (reads_int32 c _ hn32)) ?_
+  have hn0 : ¬ ((p.names.length : Int) < 0) := by omega
+  simp only [hn0, if_false, Int.toNat_natCast]
+  refine FailsWith.after_pre (a := ()) (Reads.allocOk c _ (by omega) hp.ncnt.1) ?_
+  have hrows := Reads.many (p := readNameRow c) (enc := nameRow c) p.names (fun r hr => reads_nameRow c r (hp.names r hr))
+  refine FailsWith.after hrows ?_
+  exact FailsWith.first (columns_then_failure c p.names p.cols cols hp.col k bad s hbad)
+
 /-- a presence flag other than 0/1 on the value of a table-level entry -/
 theorem entry_bad_value_flag (c : Cfg) (name : Bytes) (hn : fitsStr c name.length) (vt flag : UInt8)
     (h0 : flag ≠ 0) (h1 : flag ≠ 1) :
@@ -448,6 +536,28 @@ theorem bad_table_flag_in_file (c : Cfg) (sub : Option (List Bool)) (good : List
         (good.flatMap (fun e => tableEntry c e.1 e.2.1 e.2.2) ++ (str c name ++ [vt] ++ [flag]))) ++ rest).toArray =
       ⟨.ok (1, 0), some (.error (.st .arrayLen1)), [], none⟩ :=
   tm_failure_in_file c sub _ _ (tm_fails_with_entry c good hg k hmax _ _ (entry_bad_value_flag c name hn vt flag h0 h1)) rest fuel
+
+/-- ... a corrupted row of the name list, or a corrupted column of the per-column part, of an
+    otherwise intact table-metadata section: the first non-OK status, no slice is read -/
+theorem corrupt_namerow_in_file (c : Cfg) (sub : Option (List Bool)) (table : List (Bytes × Obj × Option Obj))
+    (ht : ∀ e ∈ table, TableEntryOk c e) (htc : (table.length : Int) ≤ INT_MAX) (ncols : Nat)
+    (hcc : (ncols : Int) * 8 ≤ c.cap ∧ (ncols : Int) ≤ INT_MAX) (good : List NameRow) (hg : ∀ r ∈ good, NameRowOk c r)
+    (k : Nat) (hnc : ((good.length + (k + 1) : Nat) : Int) * 8 ≤ c.cap ∧ ((good.length + (k + 1) : Nat) : Int) ≤ INT_MAX)
+    (bad : Bytes) (s : Status) (hbad : FailsWith (readNameRow c) bad s) (rest : Bytes) (fuel : Nat) :
+    readFileF c sub fuel (header ++ (sec 2 ++ le c table.length ++ table.flatMap (fun e => tableEntry c e.1 e.2.1 e.2.2) ++
+        le c ncols ++ le c ((good.length + (k + 1) : Nat) : Int) ++ (good.flatMap (nameRow c) ++ bad)) ++ rest).toArray =
+      ⟨.ok (1, 0), some (.error (.st s)), [], none⟩ :=
+  tm_failure_in_file c sub _ _ (tm_fails_with_namerow c table ht htc ncols hcc good hg k hnc bad s hbad) rest fuel
+
+theorem corrupt_column_metadata_in_file (c : Cfg) (sub : Option (List Bool)) (p : PhysTM) (cols : List Md)
+    (hp : p.Ok c cols) (k : Nat)
+    (hcc : ((p.cols.length + (k + 1) : Nat) : Int) * 8 ≤ c.cap ∧ ((p.cols.length + (k + 1) : Nat) : Int) ≤ INT_MAX)
+    (bad : Bytes) (s : Status) (hbad : FailsWith (readColumn c p.names Md.empty) bad s) (rest : Bytes) (fuel : Nat) :
+    readFileF c sub fuel (header ++ (sec 2 ++ le c p.table.length ++ p.table.flatMap (fun e => tableEntry c e.1 e.2.1 e.2.2) ++
+        le c ((p.cols.length + (k + 1) : Nat) : Int) ++ le c p.names.length ++ p.names.flatMap (nameRow c) ++
+        (p.cols.flatMap (fun col => col.flatMap (optObj c)) ++ bad)) ++ rest).toArray =
+      ⟨.ok (1, 0), some (.error (.st s)), [], none⟩ :=
+  tm_failure_in_file c sub _ _ (tm_fails_with_column c p cols hp k hcc bad s hbad) rest fuel
 
 /-- a property of a column slice corrupted in a way `sbdf_va_read` reports with `s` (its value
     array, after an intact name), after the intact values and any number of intact properties:
